@@ -279,7 +279,7 @@ PROPS = {
         "family": ("c11", {"quick": [], "thorough": []}),
         "technique": "bounded: one ledger split into included files in several ways on a real temporary directory (and on the in-memory file system), loaded through the real Loader and compared entry by entry with the "
                      "unsplit ledger; contract-based only for the glob options (Verus on glob_match_options extracted from /repo) and three textual anchors on load_impl",
-        "explanation": "BOUNDED (almost no deductive content: stated plainly).  Loader::load_impl recurses through a FileSystem trait object, glob, PathBuf and an FnMut callback; the real file system has no specification, so "
+        "explanation": "(one statement of load_impl is proved as a slice over an assumed model of std::path: the target of an `include` line is the directory of the INCLUDING file joined with the written path, a file without a parent directory or a non-Unicode result is an error) BOUNDED (almost no deductive content: stated plainly).  Loader::load_impl recurses through a FileSystem trait object, glob, PathBuf and an FnMut callback; the real file system has no specification, so "
                        "no contract within reach decides 'splitting changes nothing'.  Proved: glob_match_options requires a literal separator and a literal leading dot (wildcards do not cross directories, dot-files are "
                        "not matched).  Anchored textually (a change is exit 2): matches are sorted before being visited, an empty match returns an error, every non-include entry goes to the callback.  Everything else "
                        "is the c11 family: a seven-entry ledger (commodity and account declarations, a comment, four transactions with an assertion) in 6 layouts - one include in the middle, includes first and last, "
